@@ -21,7 +21,7 @@ RULE = (
     "is evaluated under the decoded switch values by an independent PE interpreter on an exhaustive small grid plus seeded data points and "
     "compared with direct evaluation of the kernel; the number of decoded values must equal get_true_switches(). A history machine without "
     "schedule or faults (none exist for this object). non-trivial = >= 2 kernels merged and >= 1 mux or multi-operation choice created; "
-    "distinct = hash of the history."
+    "distinct = hash of the history. After the last merge one SNAXPHSAccelerator object is built for the merged PE and asked for the switch values of every kernel in merge order and backwards (get_switch_values, the path the lowering uses; linalg.generic -> convert_generic_body_to_phs -> decode): whatever the object remembers between two questions must not change an answer."
 )
 M32 = 0xFFFFFFFF
 IOPS = {"addi": lambda x, y: (x + y) & M32, "subi": lambda x, y: (x - y) & M32, "muli": lambda x, y: (x * y) & M32}
@@ -73,7 +73,7 @@ def kernel_eval(body, data, table):
     return env[body[-1][3]]
 
 
-def to_pe(body, nin, flt):
+def to_pe(body, nin, flt, generic_only=False):
     from xdsl.dialects.linalg import GenericOp
     from xdsl.parser import Parser
     from xdsl.pattern_rewriter import PatternRewriter
@@ -93,6 +93,8 @@ def to_pe(body, nin, flt):
     )
     mod = Parser(compat.main().ctx.clone(), src).parse_module()
     g = next(o for o in mod.walk() if isinstance(o, GenericOp))
+    if generic_only:
+        return g
     return convert_generic_body_to_phs(g, "acc", PatternRewriter(g))
 
 
@@ -191,6 +193,37 @@ def execute(case):
                     )
                     return out
             trace.append((step, j, tuple(sw)))
+    if abstract is not None and len(merged) >= 2:
+        # the way the lowering obtains the values: one accelerator object for the merged PE, asked for one kernel after the
+        # other (in merge order, then backwards) - whatever it remembers between two questions must not change an answer
+        from ..gen import accel_cfg as A
+
+        class _Spec:
+            def get_streamer_config(self_inner):
+                return A.build({"kind": "alu", "streamers": [{"type": "r", "temporal": ["n"], "spatial": [1], "opts": []}]}).streamer_config
+
+        try:
+            from snaxc.accelerators.snax_phs import SNAXPHSAccelerator
+
+            acc = SNAXPHSAccelerator(abstract, _Spec())
+        except Exception as e:  # the constructor is not what this property is about
+            out["probes"]["accelerator-object-not-built:" + type(e).__name__] = 1
+            acc = None
+        if acc is not None:
+            for j, kb in list(enumerate(merged)) + list(enumerate(merged))[::-1]:
+                decodes += 1
+                try:
+                    sw = [int(v.owner.value.value.data) for _, v in acc.get_switch_values(to_pe(kb, nin, flt, generic_only=True))]
+                except MappingNotFoundError as e:
+                    out.update(status="violation", oracle="undecodable", message=f"the accelerator object of the merged PE cannot decode kernel {j}: {e}")
+                    return out
+                for p in points:
+                    got = pe_eval(abstract, p, sw, table)
+                    want = kernel_eval(kb, p, table)
+                    if got != want:
+                        out.update(status="violation", oracle="pe-function", message=f"asked through the accelerator object (kernel {j} after the others), the PE configured with switches {sw} computes {got!r} on inputs {p}, the kernel computes {want!r}")
+                        return out
+            out["probes"]["decoded-through-accelerator-object"] = 1
     out["runs"] = decodes
     out["zero_fault_runs"] = decodes
     out["steps"] = decodes * len(points)
